@@ -122,7 +122,8 @@ async fn registry_enum() {
 /// committed when it began (point gets, forward and backward range scans), and a fresh reader reads the
 /// current committed state, whatever memtable rotations, flushes and compaction rounds run in between.
 /// Bound (stated): programs of <= `maxlen` operations from {set k0|k1, delete k0|k1, rotate memtable
-/// (no flush), flush, compact, begin reader 0|1}, level_count 3; maxlen 3 (quick) / 4 (thorough).
+/// (no flush), flush, compact, begin reader 0|1}, level_count 3; maxlen 3 (quick) / 4 (thorough); one more reader
+/// is open during the whole program and every program is followed by [flush, compact].
 #[derive(Clone, Copy, Debug, PartialEq)]
 enum POp {
 	Set(u8),
@@ -186,8 +187,15 @@ async fn reads_enum_impl(maxlen: usize, name: &str) {
 				t.commit().await.unwrap();
 			}
 			let mut readers: [Option<(crate::Transaction, [Option<Vec<u8>>; 2])>; 2] = [None, None];
+			// a reader that is open during the whole program (begun right after the initial commit): there is always
+			// an OLDER snapshot than the ones the program opens
+			let background = (tree.begin().unwrap(), model.clone());
 			let mut bad: Option<String> = None;
-			for (i, op) in ops.iter().enumerate() {
+			// every program is followed by a flush and a compaction round (with all the per-step checks)
+			let mut ops_run = ops.clone();
+			ops_run.push(POp::Flush);
+			ops_run.push(POp::Compact);
+			for (i, op) in ops_run.iter().enumerate() {
 				match *op {
 					POp::Set(k) => {
 						let v = format!("v{i}").into_bytes();
@@ -209,7 +217,7 @@ async fn reads_enum_impl(maxlen: usize, name: &str) {
 				}
 				// every open reader still reads its begin-time state; a fresh reader reads the current state
 				let fresh = tree.begin().unwrap();
-				let mut views: Vec<(&crate::Transaction, &[Option<Vec<u8>>; 2], String)> = vec![(&fresh, &model, "fresh reader".to_string())];
+				let mut views: Vec<(&crate::Transaction, &[Option<Vec<u8>>; 2], String)> = vec![(&fresh, &model, "fresh reader".to_string()), (&background.0, &background.1, "the reader open since the start".to_string())];
 				for (s, r) in readers.iter().enumerate() {
 					if let Some((tx, m)) = r {
 						views.push((tx, m, format!("reader {s}")));
@@ -232,6 +240,7 @@ async fn reads_enum_impl(maxlen: usize, name: &str) {
 				}
 			}
 			drop(readers);
+			drop(background);
 			let structural = ops.iter().filter(|o| matches!(o, POp::Rotate | POp::Flush | POp::Compact)).count();
 			let writes = ops.iter().filter(|o| matches!(o, POp::Set(_) | POp::Del(_))).count();
 			if structural >= 1 && writes >= 1 {
